@@ -77,15 +77,16 @@ def _response_coefficient_worker(
 
     """
     old = model.get_parameter_values()[parameter]
+    # Start values are handed to the simulations, the caller's model keeps its own
     if y0 is not None:
-        model.update_variables(y0)
+        y0 = model.get_initial_conditions() | y0
 
     model.update_parameters({parameter: old * (1 + displacement)})
     upper = _steady_state_worker(
         model,
         rel_norm=rel_norm,
         integrator=integrator,
-        y0=None,
+        y0=y0,
     )
 
     model.update_parameters({parameter: old * (1 - displacement)})
@@ -93,7 +94,7 @@ def _response_coefficient_worker(
         model,
         rel_norm=rel_norm,
         integrator=integrator,
-        y0=None,
+        y0=y0,
     )
 
     conc_resp = (upper.variables.iloc[-1] - lower.variables.iloc[-1]) / (
@@ -109,7 +110,7 @@ def _response_coefficient_worker(
             model,
             rel_norm=rel_norm,
             integrator=integrator,
-            y0=None,
+            y0=y0,
         )
         conc_resp *= old / norm.variables.iloc[-1]
         flux_resp *= old / norm.fluxes.iloc[-1]
